@@ -80,9 +80,9 @@ def make(F, salt="saltForTest"):
 
     with seams.capture_logs():
         return FileAnonymizer(anon_pwd=F["pwd"], anon_ip=F["ip"] and not F["undo"], salt=salt,
-                              sensitive_words=list(WORDS) if F["word"] else None,
+                              sensitive_words=list(F.get("wl", WORDS)) if F["word"] else None,
                               undo_ip_anon=F["ip"] and F["undo"],
-                              as_numbers=list(ASNS) if F["as"] else None,
+                              as_numbers=list(F.get("al", ASNS)) if F["as"] else None,
                               preserve_networks=["10.200.0.0/16"])
 
 
@@ -319,6 +319,11 @@ PLAIN_FILES = {
     "inner-runs": "interface   Ethernet1     description  x\ty\t\tz\n",
     "long-line": "description " + "word " * 3000 + "end\n",
     "empty": "",
+    # lines that consist of enclosing / terminator characters only (delimiter lines of quoted blocks, JSON)
+    "lone-enclosing-characters": "".join(l + "\n" for l in [
+        '"', "'", '\\"', "\\'", '"' * 3, "'" * 3, "{", "}", "{ }", "[ ]", '[ " ]', "{ ' }", ";", ",", '";', "},",
+        '"' + "'" + '"', '        "', "\t'", ' " ', '""', "''", "[]", "{}", '["', '"]', "\\", "\\\\", '"\\""',
+        "banner motd ^C", "^C", '" "', "' '"]),
 }
 
 
@@ -365,8 +370,13 @@ class PlainFilesPart(Part):
         self.tier, self.seed = tier, seed
 
     def cases(self):
-        return [{"F": F, "entry": e} for F in feature_sets() if not F["undo"]
-                for e in ("anonymize_file", "anonymize_files", "directory", "main")]
+        fs = [F for F in feature_sets() if not F["undo"]]
+        # empty lists (and an empty word) are option values too: they anonymize nothing
+        fs.append({"pwd": False, "ip": False, "word": True, "as": True, "undo": False, "wl": [], "al": []})
+        fs.append({"pwd": True, "ip": True, "word": True, "as": False, "undo": False, "wl": [""]})
+        return [{"F": F, "entry": e} for F in fs
+                for e in ("anonymize_file", "anonymize_files", "directory", "main")
+                if not (e == "main" and "al" in F)]   # the command line cannot express an empty AS list
 
     def run(self, case):
         from netconan.anonymize_files import anonymize_files
@@ -393,8 +403,8 @@ class PlainFilesPart(Part):
                 seams.write_tree(ind, {n + ".cfg": PLAIN_FILES[n].encode("utf-8") for n in names})
                 os.makedirs(outd, exist_ok=True)
                 kw = dict(anon_pwd=F["pwd"], anon_ip=F["ip"], salt="saltForTest",
-                          sensitive_words=list(WORDS) if F["word"] else None,
-                          as_numbers=list(ASNS) if F["as"] else None)
+                          sensitive_words=list(F.get("wl", WORDS)) if F["word"] else None,
+                          as_numbers=list(F.get("al", ASNS)) if F["as"] else None)
                 try:
                     with seams.capture_logs():
                         if entry == "directory":
@@ -403,8 +413,8 @@ class PlainFilesPart(Part):
                             argv = ["-i", ind, "-o", outd, "-s", "saltForTest"]
                             argv += ["-p"] if F["pwd"] else []
                             argv += ["-a"] if F["ip"] else []
-                            argv += ["-w", ",".join(WORDS)] if F["word"] else []
-                            argv += ["-n", ",".join(ASNS)] if F["as"] else []
+                            argv += ["-w", ",".join(F.get("wl", WORDS))] if F["word"] else []
+                            argv += ["-n", ",".join(F.get("al", ASNS))] if F["as"] else []
                             with seams.capture_stdio():
                                 main(argv)
                         else:
